@@ -755,6 +755,13 @@ func RunC11(c *lib.Ctx) {
 			}
 		}
 	}
+	// acknowledged events stay served: a single event A, then a bulk holding an event B whose digest shares its
+	// first 24 bits with A's (what a client finds with a few thousand hashes; the two meet below the cached levels of
+	// the sparse tree) among events sorting before and after it; each of them must be reported present at the version
+	// its 201 answer named, with a proof that verifies against the latest snapshot.
+	if c.Only == "" && srv.alive() {
+		runC11Acknowledged(c, srv, st, &stMu)
+	}
 	// clean stop, restart on the same data (log replay), canary
 	canary("before-stop")
 	if code := srv.stop(); code == -1 {
@@ -926,4 +933,94 @@ func runC11Cluster(c *lib.Ctx) {
 		c.Count("cluster_replicas_converged", int64(okNodes))
 		c.Case("cluster/insertion-corpus", sent > 10)
 	}
+}
+
+func runC11Acknowledged(c *lib.Ctx, srv *srvProc, st *canaryState, stMu *sync.Mutex) {
+	h := func(e string) []byte { return hashing.NewSha256Hasher().Do([]byte(e)) }
+	seen := map[[3]byte]string{}
+	var a, b string
+	for i := 0; i < 200000 && a == ""; i++ {
+		e := fmt.Sprintf("ack-%d-%d", c.Seed, i)
+		d := h(e)
+		k := [3]byte{d[0], d[1], d[2]}
+		if o, ok := seen[k]; ok {
+			a, b = o, e
+		}
+		seen[k] = e
+	}
+	if a == "" {
+		c.Inconclusive("acknowledged-events phase: no digest pair sharing 24 bits found")
+		return
+	}
+	bulk := []string{b}
+	lower, higher := 0, 0
+	for i := 0; (lower < 2 || higher < 2) && i < 1000; i++ {
+		e := fmt.Sprintf("ack-filler-%d-%d", c.Seed, i)
+		if bytes.Compare(h(e), h(b)) < 0 && lower < 2 {
+			lower++
+			bulk = append(bulk, e)
+		} else if bytes.Compare(h(e), h(b)) > 0 && higher < 2 {
+			higher++
+			bulk = append(bulk, e)
+		}
+	}
+	type acked struct {
+		ev string
+		v  uint64
+	}
+	var acks []acked
+	body, _ := json.Marshal(&protocol.Event{Event: []byte(a)})
+	resp := rawRequest(srv.api(), buildRequest("POST", "/events", body, -1, ""), 120*time.Second)
+	var one protocol.Snapshot
+	if resp.err != "" || resp.status != 201 || json.Unmarshal(resp.body, &one) != nil {
+		c.Inconclusive(fmt.Sprintf("acknowledged-events phase: first insertion not accepted (status %d %s)", resp.status, resp.err))
+		return
+	}
+	acks = append(acks, acked{a, one.Version})
+	var evs [][]byte
+	for _, e := range bulk {
+		evs = append(evs, []byte(e))
+	}
+	body, _ = json.Marshal(&protocol.EventsBulk{Events: evs})
+	resp = rawRequest(srv.api(), buildRequest("POST", "/events/bulk", body, -1, ""), 120*time.Second)
+	var many []protocol.Snapshot
+	if resp.err != "" || resp.status != 201 || json.Unmarshal(resp.body, &many) != nil || len(many) != len(bulk) {
+		c.Inconclusive(fmt.Sprintf("acknowledged-events phase: bulk not accepted (status %d %s)", resp.status, resp.err))
+		return
+	}
+	for i, e := range bulk {
+		acks = append(acks, acked{e, many[i].Version})
+	}
+	stMu.Lock()
+	st.accepted += uint64(1 + len(bulk))
+	stMu.Unlock()
+	last := many[len(many)-1]
+	for _, ak := range acks {
+		v := last.Version
+		qb, _ := json.Marshal(&protocol.MembershipQuery{Key: []byte(ak.ev), Version: &v})
+		resp = rawRequest(srv.api(), buildRequest("POST", "/proofs/membership", qb, -1, ""), 120*time.Second)
+		var mr protocol.MembershipResult
+		bad := ""
+		switch {
+		case resp.err != "" || resp.status != 200 || json.Unmarshal(resp.body, &mr) != nil:
+			bad = fmt.Sprintf("the membership query is not served (status %d %s)", resp.status, resp.err)
+		case !mr.Exists:
+			bad = "the server now answers that it does not exist"
+		case mr.ActualVersion != ak.v:
+			bad = fmt.Sprintf("the server now places it at version %d", mr.ActualVersion)
+		default:
+			ok := false
+			snap := &balloon.Snapshot{EventDigest: h(ak.ev), HistoryDigest: last.HistoryDigest, HyperDigest: last.HyperDigest, Version: last.Version}
+			lib.Recover(func() { ok = protocol.ToBalloonProof(&mr, hashing.NewSha256Hasher).DigestVerify(h(ak.ev), snap) })
+			if !ok {
+				bad = "its membership proof does not verify against the snapshot returned by the latest insertion"
+			}
+		}
+		c.Count("acknowledged_events_audited", 1)
+		if bad != "" {
+			c.Violation("C11:acknowledged-event-not-served", fmt.Sprintf("event %q was acknowledged (201) at version %d by a valid request (single event, then a bulk with an event sharing 24 digest bits with it); afterwards %s", ak.ev, ak.v, bad), map[string]interface{}{"id": "acknowledged", "first_event": a, "bulk": bulk})
+			return
+		}
+	}
+	c.Case("acknowledged-events/24-bit-pair", true)
 }
